@@ -14,7 +14,6 @@ package c06
 
 import (
 	"bytes"
-	"context"
 	"encoding/json"
 	"fmt"
 	"os"
@@ -133,45 +132,55 @@ type Case struct {
 	// with vuego.WithComponents(). All component files must then live in components/.
 	Short bool `json:"short,omitempty"`
 	// Root: Go type of the root data handed to the engine: "" map[string]any, mapss / *mapss
-	// map[string]string, mapsi map[string]int, struct / *struct (rootData: Pa, Pb and the fields
+	// map[string]string, mapsi map[string]int, mapaa map[any]any (what generic YAML decoders
+	// produce), struct / *struct (rootData: Pa, Pb and the fields
 	// Pe, Pn promoted from an embedded struct).
 	Root string `json:"root,omitempty"`
-	// Entry: "" Template API (NewFS.Load.Fill.Render), "vue" Vue.Render, "fragment" Vue.RenderFragment.
+	// Entry: the public door the page goes through, see doors_test.go ("" = NewFS.Load.Fill.Render).
 	Entry string `json:"entry,omitempty"`
 	// After: the page is rendered AFTER a failing variant of itself (same templates, same variable
 	// names with recognisably different values, a failing function call late in the page and in the
 	// content it supplies) - "fresh": the failing render runs on another engine of the same process,
 	// "same": on the same engine. The rendering of the case must meet the usual expectation.
 	After string `json:"after,omitempty"`
+	// Proc: the page is written with custom tags (<x-inc src=..>, <x-slot name=.. bind=..>) that a
+	// registered NodeProcessor rewrites into include / slot templates before evaluation.
+	Proc bool `json:"proc,omitempty"`
 }
 
 // ---------------------------------------------------------------------------------------------
 // Render through vuego
 // ---------------------------------------------------------------------------------------------
 
-// engine is one vuego engine over the case's file set (Template API or Vue, per c.Entry).
+// engine is one vuego engine over the case's file set: the Template API and the Vue API side by
+// side (a case uses one of them, per c.Entry).
 type engine struct {
-	c   Case
-	tpl vuego.Template
-	vue *vuego.Vue
+	c     Case
+	files map[string]string
+	fsys  fstest.MapFS
+	tpl   vuego.Template
+	vue   *vuego.Vue
 }
 
 func newEngine(c Case) *engine {
-	m := fstest.MapFS{}
-	for k, v := range files(c) {
-		m[k] = &fstest.MapFile{Data: []byte(v)}
+	e := &engine{c: c, files: files(c), fsys: fstest.MapFS{}}
+	for k, v := range e.files {
+		e.fsys[k] = &fstest.MapFile{Data: []byte(v)}
 	}
-	e := &engine{c: c}
 	// boom is the function the failing variant of the page calls (see after.go); never called by
 	// the case itself
 	funcs := vuego.FuncMap{"boom": func(s string) (string, error) { return "", fmt.Errorf("boom: %s rejected", s) }}
-	if c.Entry != "" {
-		e.vue = vuego.NewVue(m)
+	switch c.Entry {
+	case "vue", "fragment", "nodes", "built":
+		e.vue = vuego.NewVue(e.fsys)
 		if c.Short {
 			vuego.WithComponents()(e.vue)
 		}
 		if c.After != "" {
 			e.vue.Funcs(funcs)
+		}
+		if c.Proc {
+			e.vue.RegisterNodeProcessor(slotProc{})
 		}
 		return e
 	}
@@ -182,22 +191,16 @@ func newEngine(c Case) *engine {
 	if c.After != "" {
 		opts = append(opts, vuego.WithFuncs(funcs))
 	}
-	e.tpl = vuego.NewFS(m, opts...)
+	if c.Proc {
+		opts = append(opts, vuego.WithProcessor(slotProc{}))
+	}
+	e.tpl = vuego.NewFS(e.fsys, opts...)
 	return e
 }
 
 func (e *engine) render(file string, data any) (string, error) {
 	var buf bytes.Buffer
-	w := &limited{w: &buf, left: 8 << 20}
-	var err error
-	switch {
-	case e.vue != nil && e.c.Entry == "fragment":
-		err = e.vue.RenderFragment(w, file, data)
-	case e.vue != nil:
-		err = e.vue.Render(w, file, data)
-	default:
-		err = e.tpl.Load(file).Fill(data).Render(context.Background(), w)
-	}
+	err := e.through(file, data, &limited{w: &buf, left: 8 << 20})
 	return buf.String(), err
 }
 
@@ -463,7 +466,7 @@ func TestProp(t *testing.T) {
 		if n%shards != shard {
 			return true
 		}
-		c = withAfter(c, n/shards)
+		c = vary(c, n/shards)
 		nt, cls := classify(c)
 		if !run.Each(rec, "core", c, nt, cls, check) {
 			done = false
@@ -478,7 +481,7 @@ func TestProp(t *testing.T) {
 			if edge%shards != shard {
 				return true
 			}
-			c = withAfter(c, edge/shards)
+			c = vary(c, edge/shards)
 			nt, cls := classify(c)
 			cls = append(cls, "supplied-content-renders-nothing")
 			if !run.Each(rec, "core", c, nt, cls, check) {
@@ -495,7 +498,7 @@ func TestProp(t *testing.T) {
 			if wsN%shards != shard {
 				return true
 			}
-			c = withAfter(c, wsN/shards)
+			c = vary(c, wsN/shards)
 			nt, cls := classify(c)
 			cls = append(cls, "white-space-significant-in-pre")
 			if !run.Each(rec, "core", c, true || nt, cls, check) {
@@ -513,7 +516,7 @@ func TestProp(t *testing.T) {
 				if shapes%shards != shard {
 					return true
 				}
-				c = withAfter(c, shapes/shards)
+				c = vary(c, shapes/shards)
 				_, cls := classify(c)
 				if !run.Each(rec, "core", c, true, cls, check) {
 					done = false
@@ -530,7 +533,7 @@ func TestProp(t *testing.T) {
 			if hand%shards != shard {
 				return true
 			}
-			c = withAfter(c, hand/shards)
+			c = vary(c, hand/shards)
 			nt, cls := classify(c)
 			if !run.Each(rec, "core", c, nt, cls, check) {
 				done = false
@@ -547,7 +550,7 @@ func TestProp(t *testing.T) {
 		// a render is still spinning in its goroutine: report what was found and get out
 		return
 	}
-	after := func(t *rapid.T, c Case) Case { return withAfter(c, rapid.IntRange(0, 7).Draw(t, "after-failure")) }
+	after := varyDrawn
 	run.Rapid(t, rec, "random", func(t *rapid.T) Case { return after(t, genCase(t, ex, rec)) }, classify, check)
 	if compose.Hung() {
 		return
